@@ -72,6 +72,10 @@ func ServerHandle(rw netio.Conn, logger *zap.Logger, usernameByToken map[string]
 			)
 		}
 
+		// Consume the body of the refused request, so that the next request is read from a message boundary.
+		_, _ = io.Copy(io.Discard, req.Body)
+		_ = req.Body.Close()
+
 		if err = send407(rw); err != nil {
 			return nil, conn.Addr{}, "", fmt.Errorf("failed to send 407 Proxy Authentication Required response after %w: %w", newFailedAuthAttemptsError(failedAuthAttempts), err)
 		}
